@@ -299,6 +299,7 @@ class Prover:
     # -- non-solver findings (structural obligations, e.g. C03) -----------------------------
     def structural(self, name, ok, detail=None):
         self.res['obligations'] += 1
+        self.res['nontrivial'] += 1
         if ok:
             self.res['discharged'] += 1
             return True
